@@ -408,6 +408,8 @@ def run(ctx):
         bi, nn, k = units[i]
         if bi == "big":
             explore_big(col, nn, scratch, ctx.thorough)
+            if nn == "point":
+                sibling_frames(col)
             return
         if nn == 6:
             explore_small(col, bi, nn, k, scratch, ctx.seed)
@@ -424,6 +426,65 @@ def run(ctx):
     ctx.coverage_extra["n"] = n
     ctx.assumptions = ["the pandas side is the oracle; it is tied to exact oracles by C01/C04/C05",
                        "pack_partitions raising is exempt (C09)"]
+
+
+def sibling_frames(col):
+    """frames that differ ONLY in which elements their geometry column holds - equal-length slices of one parent frame with the
+    index reset, and a missing point versus the point (0, 0) whose bytes fill a missing slot - made into Dask collections
+    while the earlier collection is still referenced: every one must answer for its own rows"""
+    import dask.dataframe as dd
+    import pandas as pd
+    from spatialpandas import GeoDataFrame
+    S = "synchronous"
+    n = 4
+    parents = {
+        "point": [(0, 0), (1, 5), None, (3, 1), (7, 7), None, (9, 2), (8, 8)],
+        "polygon": [(sq(0, 0, 1, 1),), (sq(2, 2, 3, 3),), None, (sq(4, 0, 6, 1),), (sq(7, 7, 9, 9),), (sq(0, 5, 1, 8),), None, (sq(5, 5, 6, 6),)],
+        "multiline": [(((0, 0), (1, 1)),), None, (((2, 0), (2, 3)), ((4, 4), (5, 4))), (((9, 9), (8, 7)),), (((6, 1), (7, 2)),), (((0, 9), (1, 8)),),
+                      None, (((3, 3), (3, 4)),)],
+    }
+    groups = []
+    for kind, elems in parents.items():
+        big = GeoDataFrame({"val": np.arange(2 * n) % n, "geometry": L.make_array(kind, elems, "float64")})
+        groups.append((f"slices:{kind}", [big.iloc[0:n].reset_index(drop=True), big.iloc[n:2 * n].reset_index(drop=True),
+                                           big.iloc[2:2 + n].reset_index(drop=True)]))
+    pm = GeoDataFrame({"val": np.arange(3), "geometry": L.make_array("point", [(1, 1), None, (3, 3)], "float64")})
+    pz = GeoDataFrame({"val": np.arange(3), "geometry": L.make_array("point", [(1, 1), (0, 0), (3, 3)], "float64")})
+    groups.append(("missing_vs_origin", [pm, pz]))
+    groups.append(("origin_vs_missing", [pz, pm]))
+    lm = GeoDataFrame({"val": np.arange(3), "geometry": L.make_array("line", [((1, 1), (2, 2)), None, ((3, 3), (4, 3))], "float64")})
+    le = GeoDataFrame({"val": np.arange(3), "geometry": L.make_array("line", [((1, 1), (2, 2)), (), ((3, 3), (4, 3))], "float64")})
+    groups.append(("missing_vs_empty", [lm, le]))
+    groups.append(("empty_vs_missing", [le, lm]))
+    boxes_ = [(-1, -1, 3.5, 3.5), (3.5, -1, 10, 10), (-0.5, -0.5, 0.5, 0.5)]
+    for tag, frames in groups:
+        for order in (frames, frames[::-1]):
+            alive = []
+            for fi, F in enumerate(order):
+                case = {"base": "siblings", "n": len(F), "npartitions": 2, "provenance": "siblings:" + tag, "position": fi}
+                col.count("evaluations", 4 + len(boxes_))
+                try:
+                    d = dd.from_pandas(F, npartitions=2)
+                    alive.append(d)
+                    want = F["geometry"].array.data.to_pylist()
+                    got = d.compute(scheduler=S)["geometry"].array.data.to_pylist()
+                    if got != want:
+                        col.violation("siblings.rows", case, f"{tag}: frame {fi} computes to the elements {got}, it was made from {want}")
+                        continue
+                    if not eqf(tuple(float(v) for v in d.geometry.total_bounds), tuple(float(v) for v in F.geometry.total_bounds)):
+                        col.violation("siblings.total_bounds", case, f"{tag}: frame {fi} total_bounds {d.geometry.total_bounds} vs pandas {F.geometry.total_bounds}")
+                    if not eqf(d.geometry.bounds.compute(scheduler=S).values, F.geometry.bounds.values):
+                        col.violation("siblings.bounds", case, f"{tag}: frame {fi} bounds differ from pandas")
+                    if not eqf(d.geometry.length.compute(scheduler=S).values, F.geometry.length.values):
+                        col.violation("siblings.length", case, f"{tag}: frame {fi} length differs from pandas")
+                    for b in boxes_:
+                        g = d.cx[b[0]:b[2], b[1]:b[3]].compute(scheduler=S).index.tolist()
+                        w = F.cx[b[0]:b[2], b[1]:b[3]].index.tolist()
+                        if g != w:
+                            col.violation("siblings.cx", dict(case, box=list(b)), f"{tag}: frame {fi} cx {b} selects {g}, pandas {w}")
+                except Exception as ex:
+                    col.violation("siblings.raises", case, f"{tag}: {type(ex).__name__}: {str(ex)[:200]}")
+            del alive
 
 
 def explore_small(col, bi, n, k, scratch, seed):
@@ -455,6 +516,9 @@ def replay(ctx, case):
     bxs = [tuple(case["box"])] if case.get("box") else boxes(False)
     prov = case["provenance"]
     pa = BASES[bi][0] == "point"
+    if str(prov).startswith("siblings"):
+        sibling_frames(col)
+        return col.violations
     if prov == "filter":
         if case.get("cached"):
             ddf.partition_sindex
